@@ -100,7 +100,8 @@ def check(toks, resp, mode, build):
 
 
 HOSTILE = ["0", "1", "5", "9", ".", "e", "E", "+", "-", "_", "x", " ", "\0", "/", ":", "٠", "٩", "°",
-           "¹", "ர", "ힹ", "é", "\t", "\n", "٣", "०", "１", "a", "f", ",", "'"]
+           "¹", "ர", "ힹ", "é", "\t", "\n", "٣", "०", "１", "a", "f", ",", "'",
+           "ü", "½", "ÿ", "º", "¿", "þ", "\uffff", "\U0010ffff", "￿", "¼"]
 
 
 def digits(rng, n, first_nonzero=False):
@@ -214,7 +215,7 @@ def constructed(rng):
     # 8-lane attacks: 8..24 digits with one hostile byte at every lane
     for n in (8, 9, 15, 16, 17, 23, 24, 25):
         for pos in range(n):
-            for ch in ("/", ":", "°", "¹", "٠", " ", "\0", "e", ".", "-", "_"):
+            for ch in ("/", ":", "°", "¹", "٠", " ", "\0", "e", ".", "-", "_", "ü", "½", "ÿ", "º", "\uffff"):
                 ds = digits(rng, n, True)
                 lit = ds[:pos] + ch + ds[pos + 1:]
                 out.append("%s %s" % (rng.choice(OPS), E.hexs(lit)))
